@@ -210,6 +210,74 @@ fn env(input: &str) -> String {
     out
 }
 
+fn milli(v: f32) -> i64 {
+    (v as f64 * 1000.0).round() as i64
+}
+
+fn marker_name(m: &Option<svgbob::fragment::Marker>) -> String {
+    match m {
+        None => "-".to_string(),
+        Some(m) => format!("{}", m),
+    }
+}
+
+/// canonical one-token dump of a fragment in milli-units
+pub fn dump_fragment(f: &svgbob::Fragment) -> String {
+    use svgbob::Fragment;
+    match f {
+        Fragment::Line(l) => format!(
+            "L:{},{},{},{},{}",
+            milli(l.start.x), milli(l.start.y), milli(l.end.x), milli(l.end.y), l.is_broken as u8
+        ),
+        Fragment::MarkerLine(m) => format!(
+            "M:{},{},{},{},{},{},{}",
+            milli(m.line.start.x), milli(m.line.start.y), milli(m.line.end.x), milli(m.line.end.y),
+            m.line.is_broken as u8, marker_name(&m.start_marker), marker_name(&m.end_marker)
+        ),
+        Fragment::Circle(c) => format!(
+            "C:{},{},{},{}",
+            milli(c.center.x), milli(c.center.y), milli(c.radius), c.is_filled as u8
+        ),
+        Fragment::Arc(a) => format!(
+            "A:{},{},{},{},{},{},{}",
+            milli(a.start.x), milli(a.start.y), milli(a.end.x), milli(a.end.y), milli(a.radius),
+            a.major_flag as u8, a.sweep_flag as u8
+        ),
+        Fragment::Polygon(p) => {
+            let pts: Vec<String> = p.points.iter().map(|q| format!("{},{}", milli(q.x), milli(q.y))).collect();
+            let tags: Vec<String> = p.tags.iter().map(|t| format!("{:?}", t)).collect();
+            format!("P:{}:{}:{}", p.is_filled as u8, if tags.is_empty() { "-".to_string() } else { tags.join("+") }, pts.join("/"))
+        }
+        Fragment::Rect(r) => format!(
+            "R:{},{},{},{},{},{},{}",
+            milli(r.start.x), milli(r.start.y), milli(r.end.x), milli(r.end.y), r.is_filled as u8,
+            match r.radius { Some(v) => format!("{}", milli(v)), None => "-".to_string() },
+            r.is_broken as u8
+        ),
+        Fragment::CellText(t) => format!("T:{},{},{}", t.start.x, t.start.y, hex(&t.content)),
+        Fragment::Text(t) => format!("X:{},{},{}", milli(t.start.x), milli(t.start.y), hex(&t.text)),
+    }
+}
+
+fn dump_fragments(v: &[svgbob::FragmentSpan]) -> String {
+    if v.is_empty() {
+        return "-".to_string();
+    }
+    v.iter().map(|fs| dump_fragment(&fs.fragment)).collect::<Vec<_>>().join(";")
+}
+
+/// endorsement stage: `frags=<..> groups=<g1#g2..>`
+fn mid(input: &str) -> String {
+    let cb = svgbob::CellBuffer::from(input);
+    let (frags, groups) = cb.verif_endorse();
+    let gs: Vec<String> = groups.iter().map(|g| dump_fragments(g)).collect();
+    format!(
+        "frags={} groups={}",
+        dump_fragments(&frags),
+        if gs.is_empty() { "-".to_string() } else { gs.join("#") }
+    )
+}
+
 fn handle(mode: &str, fields: &[&str]) -> String {
     match mode {
         "lib" => {
@@ -220,6 +288,17 @@ fn handle(mode: &str, fields: &[&str]) -> String {
             format!("ok {}", hex(&svg))
         }
         "front" => front(&unhex(fields[0])),
+        "mid" => mid(&unhex(fields[0])),
+        "css0" => {
+            // the base style sheet the jss! macro produces for these settings
+            let st = parse_settings(fields[0]);
+            let svg = svgbob::to_svg_with_settings("", &Settings { include_styles: true, include_defs: false, include_backdrop: false, ..st });
+            let a = svg.find("<style>").map(|i| i + 7).unwrap_or(0);
+            let b = svg.find("</style>").unwrap_or(svg.len());
+            let css = &svg[a..b];
+            // the style text is `css0 + "\n" + legend`; no legend here
+            hex(css.strip_suffix('\n').unwrap_or(css))
+        }
         "escape_line" => {
             escape_line(fields[0].parse().expect("y"), &unhex(fields[1]))
         }
